@@ -5,7 +5,8 @@ unconstrained value); RwLock guards are tracked from write()/read() to the MIR d
 every path:  L1 no guard of the document store is live when AnalysisHost::apply_change / apply_vfs_change is entered;
 L2 the store is never locked while a guard of it is live; L3 spawn_with_snapshot moves the snapshot straight into the
 blocking task; L4 every applied change is followed by a diagnostics task; no guard outlives its handler;
-L5 a request handler whose query was cancelled answers with an error, never with a result.
+L5 a request handler whose query was cancelled answers with an error, never with a result;
+L6 after a change, diagnostics are re-spawned for every open document (a change cancels every running diagnostics task).
 Interleavings are NOT explored (no tool of this family here models tokio + salsa schedules)."""
 import os, json
 from mirsym import explore, lsp_replay
@@ -54,6 +55,27 @@ def main(tier, seed):
             chk.add_run('request handler handler::%s (under-constrained)' % fn, res, complete, {'handler': 'handler::' + fn}, nontrivial_classes=lambda c: c.startswith('cancelled'))
             for v in res.violations:
                 chk.violation('cancellation:handler::' + fn, 'obligation', v['why'][0], v['cex'], confirmed=True)
+        # L6: convergence of the published diagnostics
+        cfound = []
+        for fn in ('on_did_change', 'on_did_open'):
+            res, complete = explore.explore(ucserver.converge_factory, (fn,), jobs=1)
+            chk.add_run('handler %s: diagnostics are re-spawned for every open document (two open documents, under-constrained)' % fn, res, complete, {'handler': fn, 'open_documents': 2},
+                        nontrivial_classes=lambda c: c.startswith('respawned'))
+            cfound += [(fn, v) for v in res.violations]
+        if cfound:
+            binary = lsp_replay.build_binary()
+            obs = None
+            for attempt in range(3):
+                obs = lsp_replay.two_docs_scenario(binary)
+                if obs['before'] and not obs['last_a']:
+                    break
+            stale = bool(obs['before']) and not obs['last_a']
+            fn, v = cfound[0]
+            desc = '%s; real binary: document A (1500 functions + one syntax error, %s diagnostics published) edited, document B edited 20 ms later -> the last diagnostics published for A: %s' % (v['why'][0][:400], obs['before'], obs['last_a'])
+            if stale:
+                chk.violation('convergence:diagnostics', 'obligation', desc, dict(v['cex'], scenario='edit A, 20 ms later edit B'), confirmed=True)
+            else:
+                chk.inconclusive.append('obligation L6 violated but the stale diagnostics did not reproduce natively in 3 attempts (timing dependent): ' + desc[:400])
         if found:
             binary = lsp_replay.build_binary()
             problem = burst_replay(binary, rounds=60 if tier == 'quick' else 200)
